@@ -43,7 +43,7 @@ var (
 
 func genCase(t *rapid.T) Case {
 	c := Case{Dials: 3, Live: rapid.IntRange(0, 3).Draw(t, "live") == 0}
-	c.Spec = specgen.Gen(t, specgen.Options{Bases: specgen.BaseNames(), CHLen: chlen, SuppressAny: true, BigPN: true})
+	c.Spec = specgen.Gen(t, specgen.Options{Bases: specgen.BaseNames(), CHLen: chlen, SuppressAny: true, BigPN: true, ShortDestCID: true, OwnGenerator: true})
 	c.InitSize = rapid.SampledFrom([]int{0, 0, 1200, 1252, 1280}).Draw(t, "initsize")
 	if c.Live {
 		c.LiveMode = rapid.SampledFrom([]string{"", "", "retry", "vn", "vn"}).Draw(t, "livemode")
@@ -93,6 +93,15 @@ func checkCase(c Case, u *vf.Unit) *vf.Verdict {
 		return &quic.Config{DisablePathMTUDiscovery: true, HandshakeIdleTimeout: 10 * time.Second, MaxIdleTimeout: 20 * time.Second, InitialPacketSize: uint16(c.InitSize)}
 	}
 	ips := spec.InitialPacketSpec
+	specgen.OwnGenLen = c.Spec.OwnGen
+	defer func() { specgen.OwnGenLen = 0 }()
+	if c.Spec.OwnGen > 0 {
+		u.Class("transport-with-own-connection-id-generator")
+	}
+	shortDCID := ips.DestConnIDLength >= 1 && ips.DestConnIDLength <= 7
+	if shortDCID {
+		u.Class("dest-cid-length-1..7")
+	}
 	var tokens [][]byte
 	knobs := 0
 	multi := false
@@ -126,7 +135,7 @@ func checkCase(c Case, u *vf.Unit) *vf.Verdict {
 	if !decodable {
 		u.Class("first-pn-undecodable-by-design")
 	}
-	if c.Live && decodable {
+	if c.Live && decodable && !shortDCID { // (a server drops a first Initial whose destination connection ID is shorter than 8 bytes)
 		var f specgen.Flight
 		if c.LiveMode == "vn" {
 			f = specgen.CaptureLiveVN(curT, spec, conf(), nil)
